@@ -34,9 +34,13 @@ func runC04(c *Ctx) {
 	c04R3(c, p, "C04.R3")
 	c04R4(c, p, "C04.R4")
 	c04R5(c, p, "C04.R5")
+	c04R8(c, p, "C04.R8")
 	// the en-passant key is part of the hash: whether the square is recorded (and hashed) is decided by CanEnPassant
 	c02R2(c, p, "C04.R6.ep-recorded")
 	c02R7(c, p, "C04.R6.ep-capturable")
+	// Castles / EnPassant are restored from the undo token and the hash is popped: a corrupted token field
+	// leaves rights on the board that the popped hash does not describe
+	c.As("C03.R8", "C04.R7.undo-token", func() { c03R8(c, p) })
 }
 
 var placementWriters = map[string]string{
@@ -1097,4 +1101,247 @@ func castlingTerms(c *Ctx, p *Prog, rule, spec string, terms []hashTerm, delta s
 			}
 		}
 	}
+}
+
+// c04R8: every Zobrist key the hash can use is drawn at start-up. The stores in package board's
+// init that fill piecesRand / castlingRand / epFileRand with random numbers must, per dimension,
+// range over the whole table (the NoPiece row of piecesRand, never read, may stay zero). A row that
+// keeps its zero value makes the pieces of that kind invisible to the hash: positions that differ
+// only in where such a piece stands are "repetitions" and share table entries.
+func c04R8(c *Ctx, p *Prog, rule string) {
+	pk := p.SSAPkg("board")
+	if pk == nil {
+		c.Anchor(rule, "package board")
+		return
+	}
+	noPiece, _ := p.pkgConstInt("chess.NoPiece")
+	type cover struct {
+		dims [][]bool
+		pos  token.Pos
+		seen bool
+	}
+	tables := map[string]*cover{}
+	dimsOf := func(g *ssa.Global) []int {
+		var out []int
+		t := g.Type().(*types.Pointer).Elem()
+		for {
+			at, ok := t.Underlying().(*types.Array)
+			if !ok {
+				break
+			}
+			out = append(out, int(at.Len()))
+			t = at.Elem()
+		}
+		return out
+	}
+	for _, name := range []string{"piecesRand", "castlingRand", "epFileRand"} {
+		g, _ := pk.Members[name].(*ssa.Global)
+		if g == nil {
+			c.Anchor(rule, "board."+name)
+			continue
+		}
+		cv := &cover{pos: g.Pos()}
+		for _, n := range dimsOf(g) {
+			cv.dims = append(cv.dims, make([]bool, n))
+		}
+		tables[name] = cv
+	}
+	undec := map[string]string{}
+	for _, fn := range p.OwnFuncs() {
+		if relPkg(fnPkgPath(fn)) != "board" || !strings.HasPrefix(fn.Name(), "init") {
+			continue
+		}
+		allInstrs(fn, func(in ssa.Instruction) {
+			st, ok := in.(*ssa.Store)
+			if !ok {
+				return
+			}
+			// address chain
+			var idxs []ssa.Value
+			a := st.Addr
+			for {
+				ia, ok := a.(*ssa.IndexAddr)
+				if !ok {
+					break
+				}
+				idxs = append([]ssa.Value{ia.Index}, idxs...)
+				a = ia.X
+			}
+			g, ok := a.(*ssa.Global)
+			if !ok || tables[g.Name()] == nil {
+				return
+			}
+			if _, isZero := constOf(st.Val); isZero {
+				return
+			}
+			cv := tables[g.Name()]
+			if len(idxs) != len(cv.dims) {
+				undec[g.Name()] = "a store addresses only part of the index chain"
+				return
+			}
+			cv.seen = true
+			for d, ix := range idxs {
+				lo, hi, ok := indexRange(ix)
+				if !ok {
+					undec[g.Name()] = fmt.Sprintf("index %d of a key store is neither a constant nor a counting loop variable with a constant range", d)
+					return
+				}
+				// values excluded by the conditions governing the store
+				excl := map[int64]bool{}
+				base := stripConv(ix)
+				for _, ce := range controllingConds(st.Block()) {
+					bo, ok := ce.Cond.(*ssa.BinOp)
+					if !ok || (bo.Op != token.EQL && bo.Op != token.NEQ) {
+						continue
+					}
+					k, isc := constOf(bo.Y)
+					if !isc || !sameValue(stripConv(bo.X), base, 0) {
+						continue
+					}
+					if ce.True == (bo.Op == token.NEQ) {
+						excl[k] = true
+					}
+				}
+				for v := lo; v < hi; v++ {
+					if v >= 0 && int(v) < len(cv.dims[d]) && !excl[v] {
+						cv.dims[d][v] = true
+					}
+				}
+			}
+		})
+	}
+	for _, name := range []string{"piecesRand", "castlingRand", "epFileRand"} {
+		cv := tables[name]
+		if cv == nil {
+			continue
+		}
+		key := "drawn:board." + name
+		switch {
+		case undec[name] != "":
+			c.Undec(rule, key, cv.pos, "%s", undec[name])
+			continue
+		case !cv.seen:
+			c.Fail(rule, key, cv.pos, "no random draw is ever stored into %s", name)
+			continue
+		}
+		missing := ""
+		for d, row := range cv.dims {
+			for v, ok := range row {
+				if ok {
+					continue
+				}
+				if name == "piecesRand" && d == 1 && int64(v) == noPiece {
+					continue
+				}
+				missing = fmt.Sprintf("index %d of dimension %d", v, d)
+			}
+		}
+		if missing == "" {
+			c.Ok(rule, key, cv.pos, "every key of %s that the hash can use is drawn at start-up", name)
+		} else {
+			c.Fail(rule, key, cv.pos, "%s: %s is never filled with a random key and stays zero — whatever that index stands for (a piece kind, a castling right, a file) does not show in the hash", name, missing)
+		}
+	}
+}
+
+// indexRange: the half-open range of values an index expression takes: a constant, or a counting
+// loop variable over 0..n-1 (n constant, or the length of a constant re-slice of an array) plus a constant.
+func indexRange(v ssa.Value) (lo, hi int64, ok bool) {
+	v = stripConv(v)
+	if k, isc := constOf(v); isc {
+		return k, k + 1, true
+	}
+	off := int64(0)
+	if bo, isb := v.(*ssa.BinOp); isb && (bo.Op == token.ADD || bo.Op == token.SUB) {
+		if k, isc := constOf(bo.Y); isc {
+			if _, isPhi := stripConv(bo.X).(*ssa.Phi); !isPhi || bo.Op == token.SUB {
+				// (phi + 1 is the range-index form itself: handled below)
+				if n, ok2 := fullRangeIndexAny(bo.X); ok2 {
+					if bo.Op == token.SUB {
+						k = -k
+					}
+					return k, n + k, true
+				}
+			}
+			_ = off
+		}
+	}
+	if n, ok2 := fullRangeIndexAny(v); ok2 {
+		return 0, n, true
+	}
+	return 0, 0, false
+}
+
+// fullRangeIndexAny: fullRangeIndex, also accepting a bound that is len(array[lo:hi]) with constant lo/hi.
+func fullRangeIndexAny(v ssa.Value) (int64, bool) {
+	if n, ok := fullRangeIndex(v); ok {
+		return n, true
+	}
+	v = stripConv(v)
+	// range-index form over a slice: v = phi+1, phi = [-1, v], cond v < len(slice)
+	bo, ok := v.(*ssa.BinOp)
+	if !ok || bo.Op != token.ADD {
+		return 0, false
+	}
+	if one, isc := constOf(bo.Y); !isc || one != 1 {
+		return 0, false
+	}
+	ph, ok := stripConv(bo.X).(*ssa.Phi)
+	if !ok {
+		return 0, false
+	}
+	okInit := false
+	for _, e := range ph.Edges {
+		if k, isc := constOf(e); isc && k == -1 {
+			okInit = true
+		} else if stripConv(e) != ssa.Value(bo) {
+			return 0, false
+		}
+	}
+	if !okInit || len(ph.Block().Instrs) == 0 {
+		return 0, false
+	}
+	iff, ok := ph.Block().Instrs[len(ph.Block().Instrs)-1].(*ssa.If)
+	if !ok {
+		return 0, false
+	}
+	cmp, ok := iff.Cond.(*ssa.BinOp)
+	if !ok || cmp.Op != token.LSS || stripConv(cmp.X) != ssa.Value(bo) {
+		return 0, false
+	}
+	call, ok := stripConv(cmp.Y).(*ssa.Call)
+	if !ok {
+		return 0, false
+	}
+	if bi, isB := call.Call.Value.(*ssa.Builtin); !isB || bi.Name() != "len" {
+		return 0, false
+	}
+	sl, ok := call.Call.Args[0].(*ssa.Slice)
+	if !ok {
+		return 0, false
+	}
+	pt, ok := sl.X.Type().Underlying().(*types.Pointer)
+	if !ok {
+		return 0, false
+	}
+	at, ok := pt.Elem().Underlying().(*types.Array)
+	if !ok {
+		return 0, false
+	}
+	lo, hi := int64(0), at.Len()
+	if sl.Low != nil {
+		k, isc := constOf(sl.Low)
+		if !isc {
+			return 0, false
+		}
+		lo = k
+	}
+	if sl.High != nil {
+		k, isc := constOf(sl.High)
+		if !isc {
+			return 0, false
+		}
+		hi = k
+	}
+	return hi - lo, hi > lo
 }
